@@ -246,25 +246,72 @@ func subsets(D []uint64, seed uint64) [][]uint64 {
 
 // recoverCompare recovers the composed image in-process and compares it with
 // the acknowledged state (an in-flight CREATE TABLE may or may not exist).
-func recoverCompare(img string, f *flushRec) string {
+func recoverCompare(img string, f *flushRec) string { return recoverCompareThen(img, f, false) }
+
+// recoverCompareThen recovers the image and compares it with the acknowledged
+// state (with or without the statement that was in flight). With followUp it
+// then issues one more acknowledged INSERT per table, lets the process die
+// again without a flush, recovers a second time and compares once more: what
+// the first recovery left behind (page stamps, counters) must not make the
+// second one drop a statement acknowledged in between.
+func recoverCompareThen(img string, f *flushRec, followUp bool) string {
 	eng, err := mk.Start(img)
 	if err != nil {
 		return "the database does not start: " + err.Error()
 	}
-	defer eng.Crash(false)
+	defer func() { eng.Crash(false) }()
 	if err := eng.Exec("USE " + DBName); err != nil {
 		return "USE failed: " + err.Error()
 	}
+	state := f.acked
 	msg := CompareAll(eng, f.acked, nil)
-	if msg == "" || f.inflight == nil {
-		return msg
+	if msg != "" {
+		if f.inflight == nil {
+			return msg
+		}
+		with := f.acked.Clone()
+		with.Apply(*f.inflight)
+		if msg2 := CompareAll(eng, with, nil); msg2 != "" {
+			return msg
+		}
+		state = with
 	}
-	with := f.acked.Clone()
-	with.Apply(*f.inflight)
-	if msg2 := CompareAll(eng, with, nil); msg2 == "" {
+	if !followUp {
 		return ""
 	}
-	return msg
+	m := state.Clone()
+	names := m.TableNames()
+	// newest table first: the first statement after the recovery then meets the
+	// pages and counters the interrupted statement left behind
+	for i, j := 0, len(names)-1; i < j; i, j = i+1, j-1 {
+		names[i], names[j] = names[j], names[i]
+	}
+	for _, name := range names {
+		t := m.Tables[name]
+		s := model.Stmt{Kind: "insert", Table: name, Rows: [][]model.Val{make([]model.Val, len(t.Cols))}}
+		for i := range t.Cols {
+			s.Rows[0][i] = model.Null()
+		}
+		m.Apply(s)
+		if err := eng.ExecStmt(s); err != nil {
+			return fmt.Sprintf("after the recovery an insert into %s is refused: %v", name, err)
+		}
+	}
+	if msg := CompareAll(eng, m, nil); msg != "" {
+		return "after the recovery and one insert per table: " + msg
+	}
+	eng.Crash(false)
+	eng, err = mk.Start(img)
+	if err != nil {
+		return "after the recovery, one insert per table and another process death the database does not start: " + err.Error()
+	}
+	if err := eng.Exec("USE " + DBName); err != nil {
+		return "USE failed: " + err.Error()
+	}
+	if msg := CompareAll(eng, m, nil); msg != "" {
+		return "after the recovery, one insert per table, another process death and recovery: " + msg
+	}
+	return ""
 }
 
 type childReq struct {
@@ -542,7 +589,7 @@ func c04Run(c c04Case, st *vlib.Stats) string {
 				return "compose failed: " + err.Error()
 			}
 			composed++
-			msg := recoverCompare(img, f)
+			msg := recoverCompareThen(img, f, si == 0 || si == len(subs)-1 || si == nOld-1 || (uint64(si)+c.SubsetSeed)%3 == 0)
 			os.Chdir(dir)
 			os.RemoveAll(img)
 			if msg != "" {
